@@ -88,7 +88,11 @@ def check_props(prop):
     if not os.path.exists(src):
         res['log'] = f'missing {src}'
         return res
-    ok, out = coq_build()
+    # build only what this property depends on, so that one property's broken proof never stops another's check
+    tg = [f'theories/Props/{prop}.vo']
+    if os.path.exists(os.path.join(COQ, 'theories', 'Run', f'{prop}.v')):
+        tg.append(f'theories/Run/{prop}.vo')
+    ok, out = coq_build(tg)
     if not ok:
         res['log'] = out[-4000:]
         # name the first file that fails
@@ -99,7 +103,7 @@ def check_props(prop):
     os.makedirs(wd, exist_ok=True)
     cmd = ['coqc', '-Q', os.path.join(COQ, 'theories'), 'Verif', '-o', os.path.join(wd, f'{prop}.vo'), src]
     rc, out = _run(cmd, wd, 900)
-    res['checker_cmd'] = 'cd coq && make -j16 && ' + ' '.join(cmd)
+    res['checker_cmd'] = 'cd coq && make -j16 ' + ' '.join(tg) + ' && ' + ' '.join(cmd)
     res['log'] = out[-6000:]
     txt = re.sub(r'\(\*.*?\*\)', '', open(src).read(), flags=re.S)
     res['theorems'] = re.findall(r'^\s*(?:Theorem|Example)\s+(\w+)', txt, flags=re.M)
